@@ -5,6 +5,12 @@
 //! buffers). `tls=ossl|rustls` puts the real compio-tls stream under the WebSocket (a buffering layer:
 //! the TLS session holds written records until flushed).
 //!
+//! `sb=<c|s>` gives that endpoint's socket (and the relay socket that forwards its bytes) the kernel's minimum
+//! send buffer: its replies are back-pressured as soon as the peer is not reading. A `burst` step then makes the
+//! *other* side send `count` messages (pings mixed with text) before it reads a single pong: after a handful of
+//! pongs the flush that `poll_next` performs before yielding returns `Pending` with the item parked, and every
+//! message must still be yielded exactly once, in order.
+//!
 //! After every step both tasks meet at a barrier, so a reply that the layer must flush *before yielding the
 //! item* (pong, close reply) cannot be pushed out by a later operation of the same task.
 
@@ -33,7 +39,8 @@ pub fn gen_ws(r: &mut Rng, thorough: bool) -> Vec<String> {
     let tls = *r.pick(&["none", "none", "ossl", "rustls"]);
     let lim = *r.pick(&[0usize, 1, 7, 4096, 65536]);
     let gap = r.below(3);
-    let mut lines = vec![format!("ws tls={tls} lim={lim} gap={gap}")];
+    let sb = *r.pick(&["none", "none", "c", "s"]);
+    let mut lines = vec![format!("ws tls={tls} lim={lim} gap={gap} sb={sb}")];
     let maxlen: u64 = match (lim, thorough) {
         (1, false) => 600,
         (1, true) => 6_000,
@@ -44,6 +51,13 @@ pub fn gen_ws(r: &mut Rng, thorough: bool) -> Vec<String> {
     };
     let n = r.range(0, 5);
     for _ in 0..n {
+        if sb != "none" && r.chance(1, 2) {
+            // the burst goes towards the endpoint whose replies are back-pressured
+            let dir = if sb == "s" { "c2s" } else { "s2c" };
+            let count = *r.pick(&[8u64, 24, 48, 64]);
+            lines.push(format!("burst {dir} {count} {} {}", r.range(8, 40), r.below(1000)));
+            continue;
+        }
         let dir = if r.chance(1, 2) { "c2s" } else { "s2c" };
         let kind = *r.pick(&["text", "bin", "bin", "ping"]);
         let len = if kind == "ping" {
@@ -67,6 +81,8 @@ pub fn gen_ws(r: &mut Rng, thorough: bool) -> Vec<String> {
 
 #[derive(Clone, Debug)]
 enum Step {
+    /// (this side sends?, count, len, seed): `count` messages back to back, then the pongs
+    Burst(bool, usize, usize, u64),
     /// (this side sends?, kind, len, seed)
     Msg(bool, String, usize, u64),
     Close(bool),
@@ -99,6 +115,23 @@ fn mk_msg(kind: &str, len: usize, seed: u64) -> Message {
         "ping" => Message::Ping(b.into()),
         o => panic!("kind {o}"),
     }
+}
+
+/// the `i`-th message of a burst: mostly pings (each queues a pong at the reader), some text
+pub fn burst_kind(seed: u64, i: usize) -> &'static str {
+    if (seed + i as u64) % 4 == 3 { "text" } else { "ping" }
+}
+
+unsafe extern "C" {
+    fn setsockopt(fd: i32, level: i32, name: i32, val: *const std::ffi::c_void, len: u32) -> i32;
+}
+
+/// SO_SNDBUF := kernel minimum (Linux: SOL_SOCKET = 1, SO_SNDBUF = 7)
+fn tiny_sndbuf(s: &UnixStream) {
+    use std::os::fd::AsRawFd;
+    let one: i32 = 1;
+    let rc = unsafe { setsockopt(s.as_raw_fd(), 1, 7, &one as *const i32 as *const _, 4) };
+    assert_eq!(rc, 0, "setsockopt(SO_SNDBUF)");
 }
 
 fn same(m: &Message, kind: &str, want: &[u8]) -> bool {
@@ -275,6 +308,48 @@ async fn side(
                     other => Res::Mismatch(format!("reader got {}", short(other))),
                 }
             }
+            Step::Burst(true, count, len, seed) => {
+                let mut r = Res::Ok;
+                for i in 0..*count {
+                    if let Err(e) = ws.send(mk_msg(burst_kind(*seed, i), *len, *seed + i as u64)).await {
+                        r = Res::Err(e.to_string());
+                        break;
+                    }
+                }
+                if r == Res::Ok {
+                    for i in (0..*count).filter(|i| burst_kind(*seed, *i) == "ping") {
+                        let m = ws.read().await;
+                        match &m {
+                            Ok(x) if same(x, "pong", &body("ping", *len, *seed + i as u64)) => {}
+                            other => {
+                                r = Res::Mismatch(format!("burst sender: pong of item {i} expected, got {}", short(other)));
+                                break;
+                            }
+                        }
+                    }
+                }
+                r
+            }
+            Step::Burst(false, count, len, seed) => {
+                // the message-sequence monitor: every message exactly once, in order
+                let mut r = Res::Ok;
+                for i in 0..*count {
+                    let kind = burst_kind(*seed, i);
+                    let m = ws.read().await;
+                    match &m {
+                        Ok(x) if same(x, kind, &body(kind, *len, *seed + i as u64)) => {}
+                        Err(e) => {
+                            r = Res::Err(e.to_string());
+                            break;
+                        }
+                        other => {
+                            r = Res::Mismatch(format!("burst reader: item {i} of {count} expected, got {}", short(other)));
+                            break;
+                        }
+                    }
+                }
+                r
+            }
             Step::Close(true) => match ws.close(None).await {
                 Err(e) => Res::Err(e.to_string()),
                 Ok(()) => {
@@ -317,6 +392,7 @@ pub fn exec_ws(ra: &TlsAcceptor, rc: &TlsConnector, oa: &TlsAcceptor, oc: &TlsCo
     let tls = kv(&t, "tls").to_string();
     let lim: usize = kv(&t, "lim").parse().unwrap();
     let gap: u64 = kv(&t, "gap").parse().unwrap();
+    let sb = t.iter().find_map(|x| x.strip_prefix("sb=")).unwrap_or("none").to_string();
     let (conn, acc) = if tls == "ossl" { (oc.clone(), oa.clone()) } else { (rc.clone(), ra.clone()) };
     let mut words = vec![];
     let mut csteps = vec![];
@@ -333,6 +409,16 @@ pub fn exec_ws(ra: &TlsAcceptor, rc: &TlsConnector, oa: &TlsAcceptor, oc: &TlsCo
                 words.push(format!("msg ok {} {}", w[2], len));
                 csteps.push(Step::Msg(c2s, w[2].to_string(), len, seed));
                 ssteps.push(Step::Msg(!c2s, w[2].to_string(), len, seed));
+            }
+            "burst" => {
+                let c2s = w[1] == "c2s";
+                let count: usize = w[2].parse().unwrap();
+                let len: usize = w[3].parse().unwrap();
+                let seed: u64 = w[4].parse().unwrap();
+                total += (count * (len + 16)) as u64 * 64;
+                words.push(format!("burst ok {count}"));
+                csteps.push(Step::Burst(c2s, count, len, seed));
+                ssteps.push(Step::Burst(!c2s, count, len, seed));
             }
             "wsclose" => {
                 let c = w[1] == "c";
@@ -359,11 +445,28 @@ pub fn exec_ws(ra: &TlsAcceptor, rc: &TlsConnector, oa: &TlsAcceptor, oc: &TlsCo
             let relay: Pin<Box<dyn Future<Output = ()>>>;
             let (csock, ssock);
             if lim == 0 {
+                match sb.as_str() {
+                    "c" => tiny_sndbuf(&a0),
+                    "s" => tiny_sndbuf(&a1),
+                    _ => {}
+                }
                 csock = PollFd::new(a0).unwrap();
                 ssock = PollFd::new(a1).unwrap();
                 relay = Box::pin(std::future::pending());
             } else {
                 let (b0, b1) = UnixStream::pair().unwrap();
+                match sb.as_str() {
+                    // the endpoint and the relay socket that forwards its bytes to the peer
+                    "c" => {
+                        tiny_sndbuf(&a0);
+                        tiny_sndbuf(&b1);
+                    }
+                    "s" => {
+                        tiny_sndbuf(&b0);
+                        tiny_sndbuf(&a1);
+                    }
+                    _ => {}
+                }
                 csock = PollFd::new(a0).unwrap();
                 ssock = PollFd::new(b0).unwrap();
                 let ra = PollFd::new(a1).unwrap();
@@ -413,7 +516,14 @@ pub fn exec_ws(ra: &TlsAcceptor, rc: &TlsConnector, oa: &TlsAcceptor, oc: &TlsCo
         let word = okword.split(' ').next().unwrap().to_string();
         let line = match (&resc[i], &ress[i]) {
             (Res::Ok, Res::Ok) => okword,
-            (Res::Mismatch(m), _) | (_, Res::Mismatch(m)) => {
+            (Res::Mismatch(_), _) | (_, Res::Mismatch(_)) => {
+                // report the reader's observation when both sides noticed (the sender only sees the fallout)
+                let m = match (&resc[i], &ress[i]) {
+                    (Res::Mismatch(a), Res::Mismatch(b)) => if b.contains("reader") { b } else { a },
+                    (Res::Mismatch(a), _) => a,
+                    (_, Res::Mismatch(b)) => b,
+                    _ => unreachable!(),
+                };
                 if !bad {
                     ex.fail(if word == "wsclose" { "C15:close" } else { "C15:data-mismatch" }, detail(&format!("step {i}: {m}")));
                 }
@@ -440,6 +550,9 @@ pub fn exec_ws(ra: &TlsAcceptor, rc: &TlsConnector, oa: &TlsAcceptor, oc: &TlsCo
     }
     ex.tag(format!("ws:tls={tls}"));
     ex.tag(format!("ws:lim={lim}"));
+    if sb != "none" {
+        ex.tag("ws:backpressure");
+    }
     ex.nontrivial = resc[0] == Res::Ok && n > 0;
     if std::env::var_os("C15_PROBE").is_some() {
         eprintln!("{}", detail("probe"));
